@@ -194,7 +194,7 @@ fn gen_hs(run: &mut Run, prop: &str, seed: u64, thorough: bool) {
                         if prop == "C17" && real {
                             cfg.dh = ["P256", "25519"][rep % 2].into();
                         }
-                        if matches!(prop, "C17" | "C07") {
+                        if matches!(prop, "C17" | "C07" | "C19" | "C03") {
                             cfg.wrong_rs = (pi + rep + usize::from(real)) % 2 == 0;
                         }
                         let nfaults = if thorough { 3 } else { 2 };
@@ -203,7 +203,16 @@ fn gen_hs(run: &mut Run, prop: &str, seed: u64, thorough: bool) {
                             let chosen: Vec<Fault> = match prop {
                                 "C03" | "C19" => kinds.iter().filter(|f| matches!(f, Fault::ReadTamper(_))).cloned().collect(),
                                 "C14" => kinds.iter().filter(|f| matches!(f, Fault::WriteCapShort(_) | Fault::WriteCapInField(_) | Fault::WriteOversize | Fault::ReadCapShort(_) | Fault::ReadOversize | Fault::ReadTamper(Tamper::Truncate(_)))).cloned().collect(),
-                                "C11" => vec![Fault::OutOfTurn],
+                                // out-of-phase calls; and rejected deliveries of every kind (an altered cleartext key makes the
+                                // DH itself fail for P-256, other alterations fail authentication): the indicators are queried
+                                // after each
+                                "C11" => {
+                                    let mut v = vec![Fault::OutOfTurn, Fault::ReadTamper(Tamper::Garbage), Fault::WriteCapShort(1)];
+                                    for f in 0..lay[k].len() {
+                                        v.push(Fault::ReadTamper(Tamper::Flip { field: f, at_end: f % 2 == 1 }));
+                                    }
+                                    v
+                                },
                                 "C12" => vec![Fault::MissingPsk],
                                 "C17" => vec![Fault::ReadTamper(Tamper::Flip { field: lay[k].len() - 1, at_end: true }), Fault::ReadCapShort(1)],
                                 _ => {
@@ -217,7 +226,7 @@ fn gen_hs(run: &mut Run, prop: &str, seed: u64, thorough: bool) {
                                 },
                             };
                             // spread the kinds over scenarios, `nfaults` per scenario
-                            let take = if matches!(prop, "C03" | "C14" | "C10" | "C07" | "C06" | "C19") && (thorough || pi % 2 == rep % 2 || prop == "C03") { chosen.len() } else { nfaults.min(chosen.len()) };
+                            let take = if matches!(prop, "C03" | "C14" | "C10" | "C07" | "C06" | "C19" | "C11") && (thorough || pi % 2 == rep % 2 || prop == "C03") { chosen.len() } else { nfaults.min(chosen.len()) };
                             let mut idx = 0;
                             while idx < take {
                                 let mut c = cfg.clone();
@@ -302,6 +311,8 @@ fn run_tamper_continue(cfg: &HsCfg, k_alt: usize, field: usize, sc: &mut Sc, r: 
         return;
     }
     let mut any_err = false;
+    let nmsgs = inst.msgs.len();
+    let mut done = [0usize; 3]; // successfully processed messages per session id
     for k in 0..inst.msgs.len() {
         let (w, rd) = if k % 2 == 0 { (1, 2) } else { (2, 1) };
         let plen = 20;
@@ -312,6 +323,7 @@ fn run_tamper_continue(cfg: &HsCfg, k_alt: usize, field: usize, sc: &mut Sc, r: 
             any_err = true;
             break;
         };
+        done[w as usize] += 1;
         if k == k_alt {
             let mut off = 0;
             for f in &lay[k][..field] {
@@ -329,6 +341,30 @@ fn run_tamper_continue(cfg: &HsCfg, k_alt: usize, field: usize, sc: &mut Sc, r: 
         if !o.is_ok() {
             any_err = true;
             break;
+        }
+        done[rd as usize] += 1;
+    }
+    if any_err {
+        // whatever error ended the run (rejected alteration, a DH that fails on the altered key, ...): the
+        // indicators are those of the messages processed successfully, and no side that is short of the last
+        // message can enter transport mode (C11)
+        for sid in [1u32, 2] {
+            let pos = done[sid as usize];
+            if let Some(q) = sc.ex.query(sid) {
+                if q.fin != Some(pos == nmsgs) {
+                    sc.viol("C11", format!("{name}: sid {sid} is_handshake_finished={:?} after {pos}/{nmsgs} messages and a failed call", q.fin));
+                }
+                if pos < nmsgs && q.turn != Some((pos % 2 == 0) == (sid == 1)) {
+                    sc.viol("C11", format!("{name}: sid {sid} is_my_turn={:?} at position {pos} after a failed call", q.turn));
+                }
+            }
+            if pos < nmsgs {
+                let c = sc.ex.convert(sid, r.chance(1, 2));
+                sc.check_panic(&c, "convert before the end");
+                if c.err() != Some("State(HandshakeNotFinished)") {
+                    sc.viol("C11", format!("{name}: sid {sid} conversion after {pos}/{nmsgs} messages and a failed call gave {c:?}"));
+                }
+            }
         }
     }
     if !any_err {
@@ -808,6 +844,7 @@ fn run_prop(prop: &str, thorough: bool, seed: u64) -> Run {
         },
         "C11" => {
             gen_hs(&mut run, prop, seed, thorough);
+            gen_tamper_continue(&mut run, seed, thorough);
             gen_transport(&mut run, prop, seed, thorough);
         },
         "C12" => {
@@ -974,6 +1011,9 @@ fn exec_line(ex: &mut Exec, line: &str) {
         "drop" => ex.drop_session(parse_u(parts[1])),
         "resolve" => {
             ex.resolve(parts[1], parts[2], parts[3]);
+        },
+        "resolve_on" => {
+            ex.resolve_on(parts[1], parts[2], parts[3]);
         },
         "setters" => {
             ex.setters(parts.get(1).copied().unwrap_or("-"));
